@@ -1352,6 +1352,9 @@ def nontrivial_c17(op, kv):
 # --------------------------------------------------------------------------
 # C09: the same cases through every build configuration and dispatch outcome
 # --------------------------------------------------------------------------
+def parse_kv(line):
+    return dict(t.split('=', 1) for t in line.split()[1:] if '=' in t)
+
 def gen_c09(tier, rng):
     quick = tier == "quick"
     step = 6 if quick else 2
@@ -1361,8 +1364,17 @@ def gen_c09(tier, rng):
         cases += src[::step]
     it = [c for c in gen_c06(tier, rng) if (" be=top" in c or " be=swar" in c)]
     cases += it[::step]
-    cases += gen_c03(tier, rng)[:: (step * 2)]
+    c3 = gen_c03(tier, rng)
+    cases += c3[:: (step * 2)]
     cases += gen_c04(tier, rng)[:: (step * 2)]
+    # needles above 32 bytes go through Two-Way + the per-ISA prefilter wiring (prefilter_kind_{sse2,avx2,fallback}):
+    # all such cases, each under a forced dispatch outcome (seeded change C09-c: SSE2-only prefilter wiring)
+    import re as _re
+    longs = [c for c in c3 if c.startswith("mm f=find") and len(parse_kv(c).get("x", "")) > 64]
+    for i, c in enumerate(longs[:: (3 if quick else 1)]):
+        c = _re.sub(r" cpu=\w+", "", c)
+        cpu = ["sse2", "none", ""][i % 3]
+        cases.append(c + (f" cpu={cpu}" if cpu else ""))
     return cases
 
 def oracle_c09(op, kv, res, trace, flags):
@@ -1401,6 +1413,10 @@ def gen_c15(tier, rng):
         lines.append(f"srfind h={hexs(h)}")
         if j % 3 == 0:
             lines.append(f"siter h={hexs(h)} k={len(greedy_py(h, x)) + 2}")
+        if j % 3 == 1:
+            # consumed half way, into_owned(), drained on another thread (forward and reverse)
+            lines.append(f"siter own=1 h={hexs(h)} k={len(greedy_py(h, x)) + 2}")
+            lines.append(f"siter own=1 dir=r h={hexs(h)} k={len(rgreedy_py(h, x)) + 2}")
     return lines
 
 def oracle_c15(op, kv, res, trace, flags, shared=b""):
@@ -1418,7 +1434,7 @@ def oracle_c15(op, kv, res, trace, flags, shared=b""):
         i = h.rfind(shared); want = "None" if i < 0 else f"Some({i})"
         return None if res == want else f"shared FinderRev::rfind returned {res} under concurrency, in isolation {want}"
     if op == "siter":
-        seq = greedy_py(h, shared); k = int(kv["k"])
+        seq = rgreedy_py(h, shared) if kv.get("dir") == "r" else greedy_py(h, shared); k = int(kv["k"])
         want = ";".join(([f"Some({i})" for i in seq] + ["None"] * k)[:k])
         return None if res == want else f"cloned find_iter yielded {res} under concurrency, in isolation {want}"
     return None
